@@ -60,6 +60,9 @@ def _digest_any(o):
         return ('aper', _aper_digest(o))
     if hasattr(o, 'param_names'):
         return ('model', _model_digest(o))
+    if name == 'IsophoteList':
+        return ('isolist', repr([(float(i.sma), float(i.intens),
+                                  float(i.eps)) for i in o]))
     if name == 'SkyCoord':
         return buffer_digest(np.array([o.ra.deg, o.dec.deg]))
     return buffer_digest(o)
@@ -204,6 +207,13 @@ class InputsMachine(Machine):
         t2['flux'] = np.array([100.0] * len(srcs))
         t2['local_bkg'] = np.array([0.5] * len(srcs))
         P['params'] = t2
+        t3 = QTable()
+        t3['x_0'] = P['xpos'].copy()
+        t3['y_0'] = P['ypos'].copy()
+        t3['flux'] = np.array([100.0] * len(srcs)) * u.Jy
+        t3['local_bkg'] = np.array([500.0] * len(srcs)) * u.mJy
+        P['params_q'] = t3
+        P['model_q'] = CircularGaussianPRF(flux=1.0 * u.Jy, fwhm=3.0)
         P['model'] = CircularGaussianPRF(flux=1.0, fwhm=3.0)
         psfimg = scenes.gaussians((13, 13), [(6, 6, 1.0, 1.3, 1.3, 0)])
         P['psfimg'] = psfimg / psfimg.sum()
@@ -261,10 +271,11 @@ class InputsMachine(Machine):
              'gini', 'cutout', 'ellipse', 'fit_gaussian', 'extract_stars',
              'segm_reads', 'sky_apertures', 'image_depth', 'gridded_model',
              'psf_model_image', 'idw', 'catalog_detcat', 'epsf_builder',
+             'epsf_star', 'ellipse_model',
              'actor_read', 'actor_read', 'actor_read']
     WEIGHTS = [3, 2, 3, 3, 1, 4, 2, 2, 4, 2, 2, 1, 1, 3, 3, 3, 2, 1, 1, 1, 2,
-               1, 1, 0.3, 2, 1.5, 1.5, 1.5, 0.6, 1.5, 1, 1, 1.5, 0.4, 4, 4,
-               4]
+               1, 1, 0.3, 2, 1.5, 1.5, 1.5, 0.6, 1.5, 1, 1, 1.5, 0.4, 1.2,
+               0.6, 4, 4, 4]
 
     def next_op(self, rng, st):
         if st.nsteps >= rng.randint(3, 9) and st.nsteps >= 3:
@@ -610,6 +621,10 @@ class InputsMachine(Machine):
         P = st.P
         v = op['variant']
         model = P['imodel'] if v % 2 else P['model']
+        if op.get('opt', 0) >= 6:
+            # unit-ful model and QTable (local_bkg in a convertible unit)
+            return self._run(st, op, lambda: make_model_image(
+                (30, 32), P['model_q'], P['params_q'], model_shape=(7, 7)))
         return self._run(st, op, lambda: make_model_image(
             (30, 32), model, P['params'], model_shape=(7, 7),
             discretize_method='center' if v < 4 else 'oversample',
@@ -847,6 +862,46 @@ class InputsMachine(Machine):
                                        progress_bar=False)(stars)
             return epsf.data
         return self._run(st, op, fn)
+
+    def _s_epsf_star(self, st, op, data, mask, error):
+        from photutils.psf import EPSFStar, EPSFStars
+        P = st.P
+        x, y = int(P['xpos'][0]), int(P['ypos'][0])
+        ys, xs = slice(max(0, y - 4), y + 5), slice(max(0, x - 4), x + 5)
+        src = P['nd'] if op['data'] in ('ma', 'ma0', 'q') else data
+        cut = src[ys, xs]                       # view of the caller's image
+        w = (P['error'] if op['variant'] % 2 else P['clean'])[ys, xs]
+
+        def fn():
+            star = EPSFStar(cut, weights=w, cutout_center=(4.2, 3.9),
+                            origin=(xs.start, ys.start))
+            stars = EPSFStars([star])
+            return (star.flux, star.estimate_flux(), stars.n_good_stars,
+                    star.register_epsf is not None)
+        return self._run(st, op, fn)
+
+    def _s_ellipse_model(self, st, op, data, mask, error):
+        from photutils.isophote import (Ellipse, EllipseGeometry,
+                                        IsophoteList, build_ellipse_model)
+        P = st.P
+        if 'isolist' not in P:
+            yy, xx = np.mgrid[0:40, 0:40]
+            img = 1000.0 * np.exp(-np.hypot(xx - 20.3, (yy - 19.6) / 0.8)
+                                  / 5.0)
+            iso = call(lambda: Ellipse(img, EllipseGeometry(
+                20, 20, 5.0, 0.2, 0.1)).fit_image(maxsma=12, minsma=2,
+                                                  step=0.3))
+            if isinstance(iso, Raised) or len(iso) < 3:
+                return iso
+            P['isolist'] = iso
+            # caller-assembled list in another order (outer part first)
+            lst = list(iso)
+            P['isolist_unsorted'] = IsophoteList(lst[3:] + lst[:3])
+            st.d0['isolist'] = _digest_any(P['isolist'])
+            st.d0['isolist_unsorted'] = _digest_any(P['isolist_unsorted'])
+        il = P['isolist_unsorted'] if op['variant'] % 2 else P['isolist']
+        return self._run(st, op, lambda: build_ellipse_model(
+            (40, 40), il, high_harmonics=bool(op.get('opt', 0) % 2)))
 
     # lazily evaluated properties / later calls of retained objects
     def _s_actor_read(self, st, op, data, mask, error):
